@@ -106,7 +106,8 @@ Proof.
     split; [|exact Hsame]. repeat split; [lia| | |]; intros; rewrite Hsame; auto.
 Qed.
 
-(* vectorcommon.hpp:185-190  fill (non trivially copyable): uninitialized tail FIRST, then assign the live prefix *)
+(* HISTORIC (before the repair 'assign(n, v) does not leak the new tail when an element assignment throws'):
+   fill (non trivially copyable) built the uninitialized tail FIRST, then assigned the live prefix *)
 Definition fill_cur (m : mem) (th : option nat) (first n count : nat) (v : Z) : out :=
   match uninit_fill_n m th (first + n) (count - n) v with Done m1 th1 => fill_n m1 th1 first n v | o => o end.
 (* F12 refuted: size 2, assign(4, v): both tail constructions succeed, the first assignment throws;
@@ -126,3 +127,127 @@ Proof. exists m0, (Some 2), 2, 6, 4, 9%Z. destruct fill_cur_leaks as (m' & E & H
 
 
 
+
+(* ---- the repaired order: assign the live prefix first, then build the tail --------------------------------------- *)
+Definition fill_fix (m : mem) (th : option nat) (first n count : nat) (v : Z) : out :=
+  match fill_n m th first n v with Done m1 th1 => uninit_fill_n m1 th1 (first + n) (count - n) v | o => o end.
+
+Lemma fill_n_th_spec : forall n m th dst v, (forall k, k < n -> is_live (m (dst + k)) = true) ->
+  match fill_n m th dst n v with
+  | Done m' _ => (forall j, dst <= j < dst + n -> m' j = Live v) /\ (forall j, ~ (dst <= j < dst + n) -> m' j = m j)
+  | Threw m' => (forall j, dst <= j < dst + n -> is_live (m' j) = true) /\ (forall j, ~ (dst <= j < dst + n) -> m' j = m j)
+  | Err _ => False
+  end.
+Proof. induction n as [|n IH]; intros m th dst v H; cbn [fill_n].
+  - split; intros; try lia; reflexivity.
+  - pose proof (H 0 ltac:(lia)) as H0. rewrite Nat.add_0_r in H0. unfold copy_assign. destruct (m dst) eqn:Ed; try discriminate.
+    destruct (tick th) as [[|] th'].
+    + split; [|reflexivity]. intros j Hj. replace j with (dst + (j - dst)) by lia. apply H. lia.
+    + specialize (IH (upd m dst (Live v)) th' (S dst) v).
+      assert (Hn : forall k, k < n -> is_live (upd m dst (Live v) (S dst + k)) = true).
+      { intros k Hk. pose proof (H (S k) ltac:(lia)) as Hw. replace (dst + S k) with (S dst + k) in Hw by lia. updsimp. }
+      specialize (IH Hn). destruct (fill_n (upd m dst (Live v)) th' (S dst) n v) as [m' th2|m'|e]; [| |assumption].
+      * destruct IH as [P1 P2]. split.
+        -- intros j Hj. destruct (Nat.eq_dec j dst) as [->|]; [rewrite P2 by lia; updsimp|apply P1; lia].
+        -- intros j Hj. rewrite P2 by lia. updsimp.
+      * destruct IH as [P1 P2]. split.
+        -- intros j Hj. destruct (Nat.eq_dec j dst) as [->|]; [rewrite P2 by lia; updsimp|apply P1; lia].
+        -- intros j Hj. rewrite P2 by lia. updsimp.
+Qed.
+
+(* assign(n, v) growing within capacity: basic guarantee at every throw point (prefix assignments, tail constructions):
+   the vector keeps its size with live elements, nothing alive beyond it; success: n copies of v *)
+Theorem assign_grow_basic m th size cap count v :
+  Inv m size cap -> size < count <= cap ->
+  match fill_fix m th 0 size count v with
+  | Done m' _ => Inv m' count cap /\ (forall j, j < count -> m' j = Live v)
+  | Threw m' => Inv m' size cap
+  | Err _ => False
+  end.
+Proof.
+  intros (Hsc & Hl & Hr & Ho) Hc. unfold fill_fix.
+  pose proof (fill_n_th_spec size m th 0 v ltac:(intros k Hk; apply Hl; lia)) as F.
+  destruct (fill_n m th 0 size v) as [m1 th1|m1|e]; [| |assumption].
+  - destruct F as [F1 F2]. unfold uninit_fill_n.
+    destruct (uninit_fill_loop_spec (count - size) m1 th1 (0 + size) (0 + size) v) as [(m' & th' & E & P1 & P2)|(m' & E & P1 & P2)];
+      [lia|intros; lia|intros k Hk; rewrite F2 by lia; apply Hr; lia| |]; rewrite E.
+    + split.
+      * repeat split; [lia| | |].
+        -- intros i Hi. destruct (le_lt_dec size i); [rewrite P1 by lia; reflexivity|rewrite P2 by lia; rewrite F1 by lia; reflexivity].
+        -- intros i A B. rewrite P2 by lia. rewrite F2 by lia. apply Hr; lia.
+        -- intros i Hi. rewrite P2 by lia. rewrite F2 by lia. apply Ho; lia.
+      * intros j Hj. destruct (le_lt_dec size j); [apply P1; lia|rewrite P2 by lia; apply F1; lia].
+    + repeat split; [lia| | |].
+      * intros i Hi. rewrite P2 by lia. rewrite F1 by lia. reflexivity.
+      * intros i A B. destruct (le_lt_dec (0 + size + (count - size)) i); [rewrite P2 by lia; rewrite F2 by lia; apply Hr; lia|apply P1; lia].
+      * intros i Hi. rewrite P2 by lia. rewrite F2 by lia. apply Ho; lia.
+  - destruct F as [F1 F2]. repeat split; [lia| | |].
+    + intros i Hi. apply F1. lia.
+    + intros i A B. rewrite F2 by lia. apply Hr; lia.
+    + intros i Hi. rewrite F2 by lia. apply Ho; lia.
+Qed.
+
+(* ---- known finding: insert(pos, count, v) in the middle, copy throws while filling the gap ------------------------- *)
+(* moves are noexcept: plain memory transformers with lifetime errors *)
+Definition move_construct (m : mem) (dst src : nat) : mem + err :=
+  match m dst, m src with
+  | Raw, Live v => inl (upd (upd m dst (Live v)) src Moved)
+  | Out, _ | _, Out => inr OutOfBlock
+  | Raw, _ => inr AssignDead | _, _ => inr ConstructOverLive end.
+Definition move_assign (m : mem) (dst src : nat) : mem + err :=
+  match m dst, m src with
+  | Out, _ | _, Out => inr OutOfBlock
+  | Raw, _ => inr AssignDead
+  | _, Live v => inl (upd (upd m dst (Live v)) src Moved)
+  | _, _ => inr AssignDead end.
+Fixpoint uninit_move_n (m : mem) (src n dst : nat) : mem + err :=
+  match n with 0 => inl m | S k => match move_construct m dst src with inl m1 => uninit_move_n m1 (S src) k (S dst) | inr e => inr e end end.
+Fixpoint move_backward (m : mem) (first n dlast : nat) : mem + err :=
+  match n with 0 => inl m | S k => match move_assign m (dlast - 1) (first + k) with inl m1 => move_backward m1 first k (dlast - 1) | inr e => inr e end end.
+Definition shift_right_cnt (m : mem) (first n count : nat) : mem + err :=
+  if count <? n then
+    match uninit_move_n m (first + n - count) count (first + n) with inl m1 => move_backward m1 first (n - count) (first + n) | inr e => inr e end
+  else uninit_move_n m first n (first + count).
+(* fill_after_shift for a moved-from gap: assignments onto moved-from slots are allowed (alive), onto raw ones not *)
+Definition copy_assign_alive (m : mem) (th : option nat) (dst : nat) (v : Z) : out :=
+  match m dst with
+  | Raw => Err AssignDead | Out => Err OutOfBlock
+  | _ => let (t, th') := tick th in if t then Threw m else Done (upd m dst (Live v)) th' end.
+Fixpoint fill_n_alive (m : mem) (th : option nat) (dst n : nat) (v : Z) : out :=
+  match n with 0 => Done m th
+  | S k => match copy_assign_alive m th dst v with Done m1 th1 => fill_n_alive m1 th1 (S dst) k v | o => o end end.
+Definition insert_cnt_th (m : mem) (th : option nat) (size pos count : nat) (v : Z) : out :=
+  let n := size - pos in
+  match shift_right_cnt m pos n count with
+  | inr e => Err e
+  | inl m1 => if n <? count
+              then match uninit_fill_n m1 th (pos + n) (count - n) v with Done m2 th2 => fill_n_alive m2 th2 pos n v | o => o end
+              else fill_n_alive m1 th pos count v
+  end.
+Definition m5 : mem := fun i => if i <? 5 then Live (Z.of_nat i) else if i <? 9 then Raw else Out.
+(* size 5, insert(begin()+2, 3, v), the first copy throws: the vector still says size 5, but slot 2 is moved-from (visible)
+   and slots 5..7 hold live objects beyond size() that nobody will destroy *)
+Lemma insert_count_middle_refuted : exists m', Inv m5 5 9 /\ insert_cnt_th m5 (Some 0) 5 2 3 7%Z = Threw m' /\
+  m' 2 = Moved /\ m' 5 = Live 2%Z /\ ~ Inv m' 5 9.
+Proof. eexists. split; [|split; [vm_compute; reflexivity|split; [reflexivity|split; [reflexivity|]]]].
+  - unfold Inv, m5. repeat split; [lia| | |].
+    + intros i Hi. destruct (Nat.ltb_spec i 5); [reflexivity|lia].
+    + intros i A B. destruct (Nat.ltb_spec i 5); [lia|]. destruct (Nat.ltb_spec i 9); [reflexivity|lia].
+    + intros i Hi. destruct (Nat.ltb_spec i 5); [lia|]. destruct (Nat.ltb_spec i 9); [lia|reflexivity].
+  - intros (_ & Hl & _). specialize (Hl 2 ltac:(lia)). cbn in Hl. discriminate. Qed.
+(* at the end of the vector (pos = size) the same operation is std::uninitialized_fill_n alone: strong guarantee *)
+Theorem insert_count_at_end_strong m th size cap count v :
+  Inv m size cap -> size + count <= cap ->
+  match insert_cnt_th m th size size count v with
+  | Done m' _ => Inv m' (size + count) cap
+  | Threw m' => Inv m' size cap /\ (forall j, m' j = m j)
+  | Err _ => False
+  end.
+Proof.
+  intros HI Hc. pose proof HI as (Hsc & Hl & Hr & Ho). unfold insert_cnt_th. rewrite Nat.sub_diag. unfold shift_right_cnt.
+  destruct (Nat.ltb_spec count 0); [lia|]. cbn [uninit_move_n]. destruct (Nat.ltb_spec 0 count) as [Hpos|Hz].
+  - rewrite Nat.add_0_r, Nat.sub_0_r. pose proof (resize_grow_strong m th size cap (size + count) v HI ltac:(lia)) as R. unfold resize_grow in R.
+    replace (size + count - size) with count in R by lia.
+    destruct (uninit_fill_n m th size count v) as [m2 th2|m2|e]; cbn [fill_n_alive]; [tauto|tauto|assumption].
+  - assert (count = 0) by lia. subst count. cbn [fill_n_alive]. rewrite Nat.add_0_r. assumption.
+Qed.
